@@ -251,7 +251,8 @@ ADDED = {
     "C02": "Failing encodes and decodes of unrelated messages run between judged cases (vf/errinject.py).",
     "C03": "Failing operations run between judged cases (vf/errinject.py); half of the cases with a list attribute change "
            "the list in place after a first encode and encode again, judged against a message built from scratch."
-           " Undeclared extras include (code, vendor) pairs numerically or textually close to a declared pair (same low 16 / 24 bits, swapped, carried, digits split elsewhere).",
+           " Undeclared extras include (code, vendor) pairs numerically or textually close to a declared pair (same low 16 / 24 bits, swapped, carried, digits split elsewhere)."
+           " One container object may be referenced from several places of one message.",
     "C04": "One Unpacker object lives through a whole shard and is reset() to every third input; its result must equal a "
            "fresh Unpacker's and its position must stay inside the buffer. A typed message refusing to re-create its AVP "
            "list from decoded values (library encode error) is counted, not judged.",
@@ -260,36 +261,43 @@ ADDED = {
            " A node-level backlog scenario holds the read thread in a synchronous handler while the peer pipelines 1.3 MiB (thorough 2.4 MiB) of requests.",
     "C06": "In histories with a prior connection the node's vendor id / product name are changed and / or an application is "
            "registered after that connection's exchange; the CEA must show the configuration as it is now."
-           " Any letter may be several reads long (~L) or arrive in two segments with the node running in between (~S).",
+           " Any letter may be several reads long (~L) or arrive in two segments with the node running in between (~S)."
+           " Two letters may share one write (the message completing or failing the exchange and the next one in one read); deadlines are also judged with a ready neighbour sending into every loop pass.",
     "C07": "Requests and answers also carry the T / E / P header flags and recycled identifiers (those of the last answered "
            "request), zero identifiers, and - behaviour 'mixed' - equal identifier pairs on several connections with one "
-           "peer's requests kept by the application and the others' failing in the handler.",
+           "peer's requests kept by the application and the others' failing in the handler."
+           " Answer letters may bear the identifiers of a request of the same peer that is still pending (~pend).",
     "C08": "Between inbound cases the node's own applications send requests towards served, unserved and unknown realms."
            " One configuration spells its realms with capitals; requests use every configured realm octet for octet (names differing in case only are not asked).",
     "C09": "The first answer may also be handed to the node with the connection (Node.send_message) or given by the node for "
            "a failing handler, after which every submission is a second one; other connections may use the pending "
            "identifiers (hop-by-hop and end-to-end); an application may be registered for the requester after its DPR. "
            "Equal identifier pairs pending on two connections at once are the known finding "
-           "answer.identifiers_pending_on_two_connections.",
+           "answer.identifiers_pending_on_two_connections."
+           " Submission mode split: route_answer and send_message as two steps with the case's fault between them.",
     "C10": "Selection callbacks may consume or reorder the list they are offered; a quarter of the configurations put all "
            "peers on one IP address; scripted start values whichever random function draws them."
-           " Realms spelled with capitals, additional realms, and requests for an unknown and for the empty realm.",
+           " Realms spelled with capitals, additional realms, and requests for an unknown and for the empty realm."
+           " Plan late_after_dpr: the owed answer arrives right behind the peer's DPR after the caller has timed out.",
     "C11": "In a third of the scenarios the peer under test is registered with add_peer (own timers) only after the node "
            "has served another peer's connection."
            " Half of the scenarios spell the peers' Origin-Host with capitals, a third send Origin-State-Id in every base message.",
     "C12": "Outcomes include an election (dial rejected beside a ready inbound connection, then DPR) and reconnect attempts "
            "that die at socket creation (EMFILE).",
     "C13": "Action late_app registers an application on the running node (six directed histories and the random walks)."
-           " Action burst_close raises 50 - 1400 wake-up notices between two loop passes and closes another connection behind them.",
+           " Action burst_close raises 50 - 1400 wake-up notices between two loop passes and closes another connection behind them."
+           " A third of the histories advertise the relay application only in their successful CER / CEA.",
     "C15": "Every statement of the writer loop behind its get() is a scheduling point."
            " Stress shards big*: messages of 20 - 130 KiB, partial writes of 4 KiB .. 4 MiB, soft errors between them, the far end reading meanwhile.",
     "C16": "The random source is also driven to the smallest / largest / a middle outcome of every draw (ExtremeRandom) for "
            "820 start times; a caller making a failing next_id call races correct callers under the scheduler."
            " Session ids for eleven identity shapes (one label .. 253 octets) x seven shapes of optional parts.",
     "C17": "Steps idle (the node awaits its DWA) and dwa; requests whose Origin-Host the application rewrites on the request "
-           "object before answering.",
+           "object before answering."
+           " Step pair: a request and its T-flagged repeat in one write.",
     "C18": "A connect pending at stop() may fail inside the shutdown window (peer with two addresses)."
-           " Cases with 50 - 120 connections whose DPAs arrive in one pass.",
+           " Cases with 50 - 120 connections whose DPAs arrive in one pass."
+           " Reaction crossing_dpr (the peer's own DPR crosses the node's) and the oracle that a connection is not closed before its DPA while the wait timeout runs.",
     "C19": "Kind socket_creation_fails: reconnect attempts that die before a socket exists."
            " A worker of a closed connection that still runs 15 s after being told to stop ends the kind with a witness.",
     "C20": "The application object is re-registered with a node of another identity after every fourth command; node-built "
